@@ -149,7 +149,17 @@ class Client:
                 return last
             pending_parse = j["acs_per_strategy"]["parse_only"]["type"] == "None"
             if not j["running_tasks"] and not pending_parse:
-                return last
+                # the server removes the running entry inside the blocking task and writes the result in
+                # the continuation: look again after a moment so that the answer returned is the settled one
+                time.sleep(0.2)
+                st, body = self.get(name)
+                try:
+                    j2 = json.loads(body) if st == 200 else None
+                except ValueError:
+                    j2 = None
+                if j2 is None or not j2["running_tasks"]:
+                    return (st, body)
+                continue
             time.sleep(0.05)
         return last
 
